@@ -744,10 +744,14 @@ def ctx_enter(it, cm):
         return h(it, cm)
     if type(cm).__name__ in ("lock", "RLock", "_RLock"):
         return cm  # single-threaded (A13): acquiring an uncontended lock is a no-op
+    if type(cm).__name__ == "suppress" and type(cm).__module__ == "contextlib":
+        return None
     raise Unsupported(f"with {type_of(cm).__name__}")
 
 
 def ctx_exit(it, cm, exc):
+    if type(cm).__name__ == "suppress" and type(cm).__module__ == "contextlib":
+        return exc is not None and it.exc_matches(exc, tuple(cm._exceptions))
     if isinstance(cm, SObj):
         um = _user_method(it, cm, "__exit__")
         if um:
